@@ -3,7 +3,8 @@
    Model: coq/theories/Copy/{Heap,Model,Obs}.v; proofs: Copy/{Lemmas,Proofs}.v; the side condition on the
    table regenerated from the source: Copy/Current.v. *)
 From Coq Require Import List String Bool Arith Lia.
-From Cobra.Copy Require Import Heap Model Obs Lemmas Proofs ModelCopy Unrepaired Current.
+From Cobra.Copy Require Import Heap Model Obs Lemmas Proofs ModelCopy Unrepaired Current
+     CopyWf CopySep CopyData CopyState CopySpecies CopyLink CopyRxn CopyGroups CopyModelCell CopyDesc CopyWfContent CopySort CopyObsEq CopyEquiv CopyRefuted.
 From Cobra.Gen Require CopyTables.
 Import ListNotations.
 Open Scope list_scope.
@@ -56,15 +57,144 @@ Theorem C12_reaction_copy_detached :
 Proof. exact reaction_copy_fresh. Qed.
 Print Assumptions C12_reaction_copy_detached.
 
-(* ---- Model.copy.  Full statement: *)
+(* ---- Model.copy: the general theorems (induction over the loops of `model_copy`, Copy/CopySep.v).
+        For EVERY heap that satisfies the boolean predicate `wf_model_heap` (no dangling pointer, typing
+        discipline, the four lists hold objects of their class, stoichiometric coefficients are atoms) and every
+        table that satisfies `table_safe`: the copy is Separated from the original; no cell of the original heap
+        changed; everything reachable from the copy was created by the copy.  No per-case certificate. *)
+Theorem C12_model_copy_separated :
+  forall T h m h' m' ok, table_safe T = true -> wf_model_heap T h m = true ->
+    model_copy T h m = (h', m', ok) -> Separated h' m m'.
+Proof. exact model_copy_separated. Qed.
+Print Assumptions C12_model_copy_separated.
+
+Theorem C12_model_copy_frame :
+  forall T h m h' m' ok, table_safe T = true -> wf_model_heap T h m = true -> model_copy T h m = (h', m', ok) ->
+    firstn (List.length h) h' = h /\
+    (forall a, a < List.length h -> get h' a = get h a) /\
+    (forall fuel root, root < List.length h -> unfold h' fuel (Ref root) = unfold h fuel (Ref root)).
+Proof. exact model_copy_frame. Qed.
+Print Assumptions C12_model_copy_frame.
+
+Theorem C12_model_copy_fresh :
+  forall T h m h' m' ok, table_safe T = true -> wf_model_heap T h m = true -> model_copy T h m = (h', m', ok) ->
+    List.length h <= m' /\
+    (forall x, Reach h' m' x -> List.length h <= x) /\ (forall x, Reach h' m x -> x < List.length h).
+Proof. exact model_copy_fresh. Qed.
+Print Assumptions C12_model_copy_fresh.
+
+(* the statement that used to be kept as a Definition only, now proved (typed_b and heap_wf are part of
+   wf_model_heap; the list-class and atom conditions are what the induction needs in addition) *)
 Definition copy_separated_statement : Prop :=
-  forall T h m h' m', table_safe T = true -> typed_b T h = true -> heap_wf h -> m < List.length h ->
+  forall T h m h' m', table_safe T = true -> wf_model_heap T h m = true ->
     model_copy T h m = (h', m', true) -> Separated h' m m' /\ firstn (List.length h) h' = h.
-(* Proved so far: the certificate form.  `sep_cert_b` (a boolean evaluated on the heap Model.copy produced:
-   old part unchanged, every new cell points only at new cells, no dangling pointers before) implies
-   separation for ALL such heaps; the check evaluates it on the model's and on the implementation's heap of
-   every explored case.  Missing: the induction over the four loops of Model.copy showing that
-   table_safe /\ typed_b make the certificate hold for every input heap. *)
+Theorem C12_copy_separated : copy_separated_statement.
+Proof.
+  intros T h m h' m' HT HW H. split; [eapply model_copy_separated; eauto|].
+  apply (model_copy_frame T h m h' m' true HT HW H).
+Qed.
+Print Assumptions C12_copy_separated.
+
+(* ---- Model.copy: the copy has the same content, per object class (Copy/CopyDesc.v, CopyDescProof.v,
+        CopyWfContent.v).  For every heap in which the model is consistent (`wf_model_content`, boolean) and every
+        table with `table_safe` and `table_shape`: Model.copy does not raise, and the result is described by
+        `CopyDesc`: the new model holds the atoms of the old one, isomorphic deep copies (`DIso`) of notes /
+        annotation / compartments / solver, four new DictLists with one new object per old object in the same
+        order; every new object has the class, the attribute names and (isomorphic copies of) the attribute values
+        of its original and points at the new model; every new reaction's stoichiometry is keyed by the NEW
+        metabolites with the old coefficients in the old order, its gene set holds the new genes named by its rule;
+        every new metabolite / gene knows exactly the new reactions that use it; every new group holds the new
+        counterparts of its members, nested groups included. *)
+Theorem C12_model_copy_structure :
+  forall T h m h' m' ok,
+    table_safe T = true -> table_shape T = true -> wf_model_content T h m = true ->
+    model_copy T h m = (h', m', ok) ->
+    ok = true /\ m' = List.length h /\
+    exists mc OM OG OR OP, ModelOk T h m mc OM OG OR OP /\ CopyDesc T h mc OM OG OR OP h'.
+Proof. exact model_copy_structure. Qed.
+Print Assumptions C12_model_copy_structure.
+
+(* ---- copy_equiv for Model.copy: for every heap in which the model is consistent (`wf_model_content`) and its
+        back references agree with its reactions (`consistent_b`: every object points at the model; the
+        `_reaction` sets of metabolites and genes and the `_genes` sets of reactions are exactly what the
+        stoichiometry and the rules say; link containers have their constructor's class), both BOOLEAN and evaluated
+        by the check on every real heap: Model.copy does not raise and the copy is observed exactly like the
+        original (`obs_model`: every attribute of the model and of every object, containers unfolded, references
+        summarised as class + id + registered, attribute order and set order canonicalised). *)
+Theorem C12_model_copy_equiv :
+  forall T h m h' m' ok,
+    table_safe T = true -> table_shape T = true -> wf_model_content T h m = true -> consistent_b T h m = true ->
+    model_copy T h m = (h', m', ok) ->
+    ok = true /\ obs_model h' m' = obs_model h m /\ equiv_b OpModelCopy h m h' m' = true.
+Proof. exact model_copy_equiv. Qed.
+Print Assumptions C12_model_copy_equiv.
+
+(* "... whose reactions, metabolites, genes and groups are distinct objects pointing at the copy": every element of
+   the four lists of the copy is a cell created by the copy whose _model is the copy, the context stack of the copy
+   is a fresh empty list and its solver a fresh object (the Coq monitor `points_to_copy_b`, now for all heaps) *)
+Theorem C12_model_copy_points_to :
+  forall T h m h' m' ok,
+    table_safe T = true -> table_shape T = true -> wf_model_content T h m = true ->
+    (exists mc s, get h m = Some mc /\ attr mc "_solver" = Some (Ref s)) ->
+    model_copy T h m = (h', m', ok) -> points_to_copy_b (List.length h) h' m' = true.
+Proof. exact model_copy_points_to. Qed.
+Print Assumptions C12_model_copy_points_to.
+
+(* the names quoted in the replay files of the check (harness/c12.py, THEOREMS) *)
+Theorem C12_points_to_copy :
+  forall T h m h' m' ok,
+    table_safe T = true -> table_shape T = true -> wf_model_content T h m = true ->
+    (exists mc s, get h m = Some mc /\ attr mc "_solver" = Some (Ref s)) ->
+    model_copy T h m = (h', m', ok) -> points_to_copy_b (List.length h) h' m' = true.
+Proof. exact model_copy_points_to. Qed.
+Print Assumptions C12_points_to_copy.
+
+Theorem C12_detached :
+  (forall T h x h' x' ok, species_copy T h x = (h', x', ok) ->
+      Ext (List.length h) h h' /\ (ok = true -> List.length h <= x')) /\
+  (forall T h r h' r', heap_wf h -> reaction_copy T h r = (h', r', true) ->
+      List.length h <= r' /\ (forall x, Reach h' r' x -> List.length h <= x)).
+Proof.
+  split; [exact species_copy_fresh|]. intros T h r h' r' Hwf H. destruct (reaction_copy_fresh T h r h' r' Hwf H) as [H1 [_ H3]]. auto.
+Qed.
+Print Assumptions C12_detached.
+
+(* set order and attribute order are not content: sort_items is invariant under permutation (distinct keys) *)
+Theorem C12_sort_items_permutation :
+  forall l1 l2, Permutation.Permutation l1 l2 -> List.NoDup (List.map ikey l1) -> sort_items l1 = sort_items l2.
+Proof. exact sort_items_permutation. Qed.
+Print Assumptions C12_sort_items_permutation.
+
+Theorem C12_model_copy_total :
+  forall T h m h' m' ok,
+    table_safe T = true -> table_shape T = true -> wf_model_content T h m = true ->
+    model_copy T h m = (h', m', ok) -> ok = true.
+Proof. exact model_copy_total. Qed.
+Print Assumptions C12_model_copy_total.
+
+(* deep copies of plain data (what Model.copy does to notes, annotation, compartments, bounds, names, rules):
+   the copy reads exactly like the original at every depth *)
+Theorem C12_deep_copy_data_equiv :
+  forall H v P h' v', DIso H v P h' v' -> forall f r r', obs_val h' r' f v' = obs_val H r f v.
+Proof. exact diso_obs_val. Qed.
+Print Assumptions C12_deep_copy_data_equiv.
+
+Theorem C12_table_shape : table_shape CopyTables.current_table = true.
+Proof. vm_compute. reflexivity. Qed.
+Print Assumptions C12_table_shape.
+
+(* ---- REFUTED without the registration hypothesis: a group nested in another group and removed with
+        Model.remove_groups (or never added) makes Model.copy raise KeyError, while deepcopy / pickle succeed
+        (replayed on the real code; fixes/model-copy-nested-groups.md) *)
+Theorem C12_model_copy_total_refuted :
+  table_safe table_v1 = true /\ table_shape table_v1 = true /\
+  wf_model_heap table_v1 toy_nested 0 = true /\ wf_model_content table_v1 toy_nested 0 = false /\
+  snd copy_nested = false /\ snd deepcopy_nested = true /\
+  equiv_b OpDeepcopy toy_nested 0 (fst (fst deepcopy_nested)) (snd (fst deepcopy_nested)) = true.
+Proof. exact model_copy_total_refuted. Qed.
+Print Assumptions C12_model_copy_total_refuted.
+
+(* the certificate form (still used by the check on the IMPLEMENTATION's heap of every case) *)
 Theorem C12_copy_separated_partial :
   forall T h m h' m' ok, m < List.length h -> model_copy T h m = (h', m', ok) -> List.length h <= m' ->
     sep_cert_b h h' = true -> Separated h' m m' /\ firstn (List.length h) h' = h.
@@ -162,12 +292,20 @@ Proof. vm_compute. repeat split; reflexivity. Qed.
 
 Example C12_repaired_toy_separated : Separated (fst (fst copy1)) 0 (snd (fst copy1)).
 Proof.
-  eapply (C12_copy_separated_partial table_v1 toy 0 _ _ (snd copy1)).
-  - vm_compute. lia.
-  - unfold copy1. destruct (model_copy table_v1 toy 0) as [[a b] c]. reflexivity.
-  - vm_compute. lia.
+  eapply (C12_model_copy_separated table_v1 toy 0 _ _ (snd copy1)).
   - vm_compute. reflexivity.
+  - vm_compute. reflexivity.
+  - unfold copy1. destruct (model_copy table_v1 toy 0) as [[a b] c]. reflexivity.
 Qed.
+
+(* the hypotheses of the general theorems hold for the toy model (context open, group, nested lists) and for the
+   model with a registered nested group *)
+Example C12_wf_nonvacuous :
+  wf_model_heap table_v1 toy 0 = true /\ wf_model_content table_v1 toy 0 = true /\
+  consistent_b table_v1 toy 0 = true /\ consistent_b table_v1 toy_nested_registered 0 = true /\
+  wf_model_content table_v1 toy_nested_registered 0 = true /\
+  snd (model_copy table_v1 toy_nested_registered 0) = true.
+Proof. vm_compute. repeat split; reflexivity. Qed.
 
 (* deepcopy, Reaction.copy and Metabolite.copy of the toy: equivalent, detached *)
 Example C12_toy_other_ops :
